@@ -29,8 +29,24 @@ class Job:
         self.header = header; self.events = []; self.shapes = []; self.steps = []; self.xs = []; self.ws = []
         self.errs = []; self.livelock = False; self.complete = False
 
-def run_driver(drv, jobs, timeout=1500):
-    """Feeds job lines to btreedrv; returns (list of Job, rc, stderr tail, dfs statistics)."""
+def run_driver(drv, jobs_in, timeout=1500, nproc=1):
+    """Feeds job lines to btreedrv (nproc processes); returns (list of Job, crashes, dfs statistics);
+    crashes = [(rc, stderr tail, job line or header during which the process died)]."""
+    from concurrent.futures import ThreadPoolExecutor
+    nproc = max(1, min(nproc, len(jobs_in)))
+    slices = [jobs_in[i::nproc] for i in range(nproc)]          # round-robin keeps the slices balanced
+    with ThreadPoolExecutor(nproc) as ex:
+        parts = list(ex.map(lambda sl: _run_driver(drv, sl, timeout), slices))
+    jobs = []; dfs_by = {}; crashes = []
+    for pi, (js, r, e, d) in enumerate(parts):
+        jobs.extend(js)
+        if r not in (0, 3):
+            crashes.append((r, e, js[-1].header if js and not js[-1].complete else "(between jobs) " + " | ".join(slices[pi])[:300]))
+        for k, x in enumerate(d):
+            dfs_by[pi + k * nproc] = x
+    return jobs, crashes, [dfs_by[i] for i in sorted(dfs_by)]
+
+def _run_driver(drv, jobs, timeout=1500):
     try:
         p = subprocess.run([drv], input="\n".join(jobs) + "\n", capture_output=True, text=True, timeout=timeout)
         rc, out, err = p.returncode, p.stdout, p.stderr
@@ -74,7 +90,7 @@ def save(wd, name, lines):
         f.write("\n".join(lines) + "\n")
     return path
 
-def judge(res, wd, tag, jobs_in, jobs, rc, err, pid):
+def judge(res, wd, tag, jobs, crashes, pid):
     """Crashes, livelocks and broken structure at quiescence are violations by themselves."""
     for i, j in enumerate(jobs):
         if j.livelock:
@@ -84,17 +100,17 @@ def judge(res, wd, tag, jobs_in, jobs, rc, err, pid):
             res.violations.append(("real B-tree: %s (job %r)" % (x, j.header), save(wd, "%s_struct_%d" % (tag, i), [j.header])))
         for e in j.errs[:1]:
             res.infra_errors.append("%s: %s (job %r)" % (tag, e, j.header))
-        res.count("transient_structure_warnings", len(j.ws))
-        if j.ws and res.cov.get("transient_structure_warnings", 0) <= 3:
-            print("STRUCT-WARN property=%s %s (job %r)" % (pid, j.ws[0], j.header), flush=True)
-    if rc not in (0, 3):
-        last = jobs[-1].header if jobs and not jobs[-1].complete else "(after job %d of %d)" % (len(jobs), len(jobs_in))
+        if j.ws:
+            res.count("transient_structure_warnings", len(j.ws))
+            if res.cov.get("transient_structure_warnings", 0) <= 3:
+                print("STRUCT-WARN property=%s %s (job %r)" % (pid, j.ws[0], j.header), flush=True)
+    for k, (rc, err, where) in enumerate(crashes):
         what = "timed out (a step of the real code did not return)" if rc == -999 else "died rc=%d" % rc
-        res.violations.append(("B-tree driver %s while running %r: %s" % (what, last, err[-400:]),
-                               save(wd, "%s_crash" % tag, [last] if jobs and not jobs[-1].complete else jobs_in)))
+        res.violations.append(("B-tree driver %s while running %r: %s" % (what, where, err[-400:]), save(wd, "%s_crash_%d" % (tag, k), [where])))
 
-def validate(res, wd, name, jobs, pid, what):
-    """TLC validates the concatenated event histories against SortedSetAbs; identical histories are validated once."""
+def validate(res, wd, name, jobs, pid, max_rejections=3):
+    """TLC validates the concatenated event histories against SortedSetAbs; identical histories are validated once.
+    After a rejection the remaining histories are validated in a further run."""
     seen = {}; uniq = []
     for i, j in enumerate(jobs):
         if not j.complete:
@@ -103,21 +119,23 @@ def validate(res, wd, name, jobs, pid, what):
         if key in seen:
             continue
         seen[key] = i; uniq.append(i)
-    events = []; ev_job = []
-    for i in uniq:
-        events.append({"e": "reset"}); ev_job.append(i)
-        for e in jobs[i].events:
-            events.append(e); ev_job.append(i)
-    if not events:
-        return
-    acc, consumed, r = tracecheck.validate("SortedSetAbsTrace", events, wd, name, constants=THREADS, timeout=1500, heap="12g")
-    res.count("trace_events", len(events)); res.count("distinct_histories", len(uniq))
-    if acc is None:
-        res.infra_errors.append("trace validation (%s) failed to run: %s" % (name, str(r["error"])[-800:]))
-    elif acc:
-        res.cov["traces_validated_against_impl"] += sum(1 for j in jobs if j.complete)
-        res.add_tlc(r)
-    else:
+    mult = collections.Counter(seen[json.dumps(j.events, separators=(",", ":"))] for j in jobs if j.complete)
+    res.count("distinct_histories", len(uniq))
+    rnd = 0
+    while uniq and rnd <= max_rejections:
+        events = []; ev_job = []
+        for i in uniq:
+            events.append({"e": "reset"}); ev_job.append(i)
+            for e in jobs[i].events:
+                events.append(e); ev_job.append(i)
+        acc, consumed, r = tracecheck.validate("SortedSetAbsTrace", events, wd, "%s_%d" % (name, rnd), constants=THREADS, timeout=2400, heap="12g")
+        rnd += 1
+        if acc is None:
+            res.infra_errors.append("trace validation (%s) failed to run: %s" % (name, str(r["error"])[-800:])); return
+        if acc:
+            res.count("trace_events", len(events))
+            res.cov["traces_validated_against_impl"] += sum(mult[i] for i in uniq)
+            res.add_tlc(r); return
         at = min(consumed, len(events) - 1)
         ji = ev_job[at]
         ev = events[at]
@@ -126,9 +144,12 @@ def validate(res, wd, name, jobs, pid, what):
         while start > 0 and events[start]["e"] != "reset":
             start -= 1
         pre = [e for e in events[start + 1:at] if e["e"] in ("call", "ret", "ins", "erase", "fill")][-12:]
-        res.cov["traces_validated_against_impl"] += sum(1 for x in uniq if x < ji)
-        res.violations.append(("%s: history of the real B-tree rejected by spec/SortedSetAbs.tla at event %s (preceding events %s); job %r"
-                               % (what, short, pre, jobs[ji].header), save(wd, "%s_rejected_%d" % (name, ji), [jobs[ji].header])))
+        res.count("trace_events", at)
+        res.cov["traces_validated_against_impl"] += sum(mult[i] for i in uniq if i < ji)
+        res.violations.append(("history of the real B-tree rejected by spec/SortedSetAbs.tla at event %s (preceding events of this history: %s); "
+                               "job %r (%d executions produced this history)" % (short, pre, jobs[ji].header, mult[ji]),
+                               save(wd, "%s_rejected_%d" % (name, ji), [jobs[ji].header])))
+        uniq = [i for i in uniq if i > ji]
 
 # ---------------------------------------------------------------------------------------------------------------------
 def asc(n, step=10):
@@ -158,24 +179,25 @@ def cases(tree):
         ("inner-rebal-h",  D, "h:135,136;h:45,75"),
     ]
 
-def coop_systematic(res, wd, drv, tier, tree="s3", pid=PID):
+def coop_systematic(res, wd, drv, tier, tree="s3", pid=PID, nproc=6):
     bound = 2 if tier == "quick" else 3
     cap = 2500 if tier == "quick" else 60000
-    jobs_in = ["coop %s %s %s D%d:%d inv" % (tree, fill, progs, bound, cap) for _, fill, progs in cases(tree)]
-    jobs, rc, err, dfs = run_driver(drv, jobs_in, timeout=2400)
-    judge(res, wd, "dfs_" + tree, jobs_in, jobs, rc, err, pid)
+    cs = cases(tree)
+    jobs_in = ["coop %s %s %s D%d:%d inv" % (tree, fill, progs, bound, cap) for _, fill, progs in cs]
+    jobs, crashes, dfs = run_driver(drv, jobs_in, timeout=2400, nproc=nproc)
+    judge(res, wd, "dfs_" + tree, jobs, crashes, pid)
     res.count("dfs_executions", len(jobs))
     res.cov.setdefault("dfs_cases", []).extend(
         {"tree": tree, "case": c[0], "progs": c[2], "preemption_bound": bound, "executions": d[0], "exhausted": d[1]}
-        for c, d in zip(cases(tree), dfs))
-    validate(res, wd, "MCT_dfs_" + tree, jobs, pid, "systematic schedules on " + tree)
+        for c, d in zip(cs, dfs))
     if jobs:
         j = jobs[len(jobs) // 2]
         res.sample({"schedule": j.header, "events": [e for e in j.events if e["e"] in ("fill", "call", "ret")], "final shape": j.shapes[-1:]})
+    return jobs
 
-def coop_random(res, wd, drv, tier, trees=("s3", "s256"), pid=PID, nrandom=None):
+def coop_random(res, wd, drv, tier, trees=("s3", "s256"), pid=PID, nrandom=None, nproc=4):
     rng = random.Random(seed() * 101 + 13)
-    n = nrandom or (2500 if tier == "quick" else 60000)
+    n = nrandom or (3000 if tier == "quick" else 60000)
     jobs_in = []
     for i in range(n):
         tree = trees[0] if i % 4 else trees[1]
@@ -203,17 +225,17 @@ def coop_random(res, wd, drv, tier, trees=("s3", "s256"), pid=PID, nrandom=None)
         ps = ";".join("%s:%s" % (h, ",".join(map(str, ks))) for h, ks in progs)
         sched = "R%d" % rng.randrange(1 << 30) if i % 3 else "P%d:%d" % (rng.randrange(1 << 30), rng.randint(1, 4))
         jobs_in.append("coop %s %s %s %s%s" % (tree, ",".join(map(str, fill)) or "-", ps, sched, " inv" if i % 2 else ""))
-    jobs, rc, err, _ = run_driver(drv, jobs_in, timeout=2400)
-    judge(res, wd, "rnd", jobs_in, jobs, rc, err, pid)
+    jobs, crashes, _ = run_driver(drv, jobs_in, timeout=2400, nproc=nproc)
+    judge(res, wd, "rnd", jobs, crashes, pid)
     res.count("random_schedules", len(jobs))
-    validate(res, wd, "MCT_rnd", jobs, pid, "seeded random / PCT schedules")
     if jobs:
         j = jobs[-1]
         res.sample({"random schedule job": jobs_in[-1], "executed": j.header[:300], "events": [e for e in j.events if e["e"] in ("call", "ret")][:12]})
+    return jobs
 
-def stress(res, wd, drv, tier, trees=("s256", "s3"), pid=PID):
+def stress(res, wd, drv, tier, trees=("s256", "s3"), pid=PID, runs=None):
     rng = random.Random(seed() * 977 + 5)
-    runs = 16 if tier == "quick" else 120
+    runs = runs or (16 if tier == "quick" else 120)
     jobs_in = []
     orders = ["sorted", "reverse", "random", "dup", "block"]
     for i in range(runs):
@@ -221,28 +243,35 @@ def stress(res, wd, drv, tier, trees=("s256", "s3"), pid=PID):
         nt = [2, 3, 4, 8, 6, 5, 7, 8][i % 8]
         order = orders[i % len(orders)]
         total = rng.choice([1500, 3000, 4000]) if tier == "quick" else rng.choice([2000, 6000, 12000])
-        count = total // nt if order != "dup" else total // 2
+        count = total // nt if order != "dup" else total // 4
         rng_range = rng.choice([0, 0, 5000, 100000])
-        if order == "dup":
-            rng_range = max(rng_range, 4 * count) if rng_range else 0
+        if order == "dup" and rng_range:
+            rng_range = max(rng_range, 4 * count)
         jobs_in.append("stress %s %d %s %d %d %d %d %d" % (tree, nt, order, count, rng.randrange(1 << 30), i % 2,
                                                            rng.choice([0, 20, 100, 300]), rng_range))
-    jobs, rc, err, _ = run_driver(drv, jobs_in, timeout=2400)
-    judge(res, wd, "stress", jobs_in, jobs, rc, err, pid)
+    jobs, crashes, _ = run_driver(drv, jobs_in, timeout=2400, nproc=2)
+    judge(res, wd, "stress", jobs, crashes, pid)
     res.count("stress_runs", len(jobs))
-    validate(res, wd, "MCT_stress", jobs, pid, "real-thread stress")
     if jobs:
         j = jobs[0]
         res.sample({"stress run": j.header, "events": len(j.events), "first": j.events[:6]})
+    return jobs
 
 def abstract_model(res, wd):
-    r = tlc.run_tlc(os.path.join(SPEC, "SortedSetAbsMC.tla"), os.path.join(SPEC, "SortedSetAbsMC.cfg"), wd, timeout=600)
+    r = tlc.run_tlc(os.path.join(SPEC, "SortedSetAbsMC.tla"), os.path.join(SPEC, "SortedSetAbsMC.cfg"), wd, timeout=600, workers=2)
     if r["violated"]:
         res.infra_errors.append("spec/SortedSetAbs.tla does not state the property: %s violated" % r["violated"])
     elif not r["ok"]:
         res.infra_errors.append(r["error"] or "tlc failed")
     else:
         res.add_tlc(r); res.cov["abstract_model_states"] = r["distinct"]
+
+ASSUMPTIONS = [
+    "cooperative runs interleave threads at the lock primitives of OptimisticReadWriteLock only: plain field accesses between two "
+    "lock operations are executed atomically; C++ memory-model effects are exercised only by the real-thread stress runs",
+    "systematic enumeration is bounded by the number of preemptions (2 quick / 3 thorough) for 2 threads",
+    "real-thread histories are ordered by tickets that enclose the real call interval (the check can only be more lenient)",
+    "queries never overlap insertions (the containers promise nothing for that)"]
 
 def run(tier, replay_path=None):
     res = Result(PID, tier)
@@ -251,18 +280,19 @@ def run(tier, replay_path=None):
     if replay_path:
         p = subprocess.run([drv], input=open(replay_path).read(), capture_output=True, text=True)
         print(p.stdout[-20000:]); return 0
-    abstract_model(res, wd)
-    coop_systematic(res, wd, drv, tier)
-    coop_random(res, wd, drv, tier)
-    stress(res, wd, drv, tier)
+    from concurrent.futures import ThreadPoolExecutor
+    with ThreadPoolExecutor(4) as ex:
+        fa = ex.submit(abstract_model, res, wd)
+        f1 = ex.submit(coop_systematic, res, wd, drv, tier)
+        f2 = ex.submit(coop_random, res, wd, drv, tier)
+        jobs = f1.result() + f2.result()
+        fa.result()
+    jobs += stress(res, wd, drv, tier)          # real threads: not while the cooperative runs occupy the cores
+    validate(res, wd, "MCT_C25", jobs, PID)
     try:
         from . import c25conc
-        c25conc.run(res, wd, drv, tier)
     except ImportError:
-        pass
-    return finish(res, "model_checking", assumptions=[
-        "cooperative runs interleave threads at the lock primitives of OptimisticReadWriteLock only: plain field accesses between two "
-        "lock operations are executed atomically; C++ memory-model effects are exercised only by the real-thread stress runs",
-        "systematic enumeration is bounded by the number of preemptions (2 quick / 3 thorough) for 2 threads",
-        "real-thread histories are ordered by tickets that enclose the real call interval (the check can only be more lenient)",
-        "queries never overlap insertions (the containers promise nothing for that)"])
+        c25conc = None
+    if c25conc:
+        c25conc.run(res, wd, drv, tier)
+    return finish(res, "model_checking", assumptions=ASSUMPTIONS)
